@@ -36,6 +36,8 @@ def run(ctx):
         "rollback/remove_all, Drop rollback, and the guard table of the Versioned container. The "
         "multi-version algebra for arbitrary operation sequences and real-thread schedules are not decided."
     )
+    import c08
+    c08.rule_any(ctx, F)   # a reader's ANY answer depends on its own version only (shared with C08)
     rule_pin(ctx, F)
     rule_ro(ctx, F)
     rule_wr(ctx, F)
